@@ -88,13 +88,26 @@ def unit(f):
     hf = f"impl Field for {F}"
     I(ark, hf, Fn("double", ensures=f"r.val() == madd({P}, self.val(), self.val())", props=("C10",), preamble=bu), header_out=f"impl {F}",
       )
+    # ---- Ord / PartialOrd / Hash of src/fields/<f>/ops.rs: integer ordering, hashing of the canonical bytes (C11)
+    opsf = f"src/fields/{f}/ops.rs"
+    I(opsf, f"impl Ord for {F}", Fn("cmp", props=("C11",), preamble=bu,
+                                   ensures="r == int_cmp(self.val(), other.val())",
+                                   subst=[("R27", r'(let mut right = [^;]*;)', r'\1 let ghost l0_ = left@; let ghost r0_ = right@;'),
+                                          ("R6", r'(\w+)\.reverse\(\);', r'arr_rev(&mut \1);'), ("R6", r'(\w+)\.cmp\(&(\w+)\)', r'limbs_cmp(&\1, &\2)')],
+                                   before_tail="lemma_lex_is_int(l0_, r0_);"), header_out=f"impl {F}")
+    I(opsf, f"impl PartialOrd for {F}", Fn("partial_cmp", props=("C11",), preamble=bu, ensures="r == Some(int_cmp(self.val(), other.val()))"), header_out=f"impl {F}")
+    I(opsf, f"impl Hash for {F}", Fn("hash", props=("C11",), preamble=bu + " let ghost w0_ = state.written(); let ghost mut tbs_: Seq<u8> = Seq::empty();",
+                                    subst=[("R20", r'state\.write\(&self\.to_bytes_le\(\)\)', r'{ let tb_ = self.to_bytes_le(); proof { tbs_ = tb_@; } state.write(&tb_) }')],
+                                    epilogue=f"assert(state.written() == w0_ + tbs_); assert(state.written().subrange(0, w0_.len() as int) =~= w0_); assert(state.written().subrange(w0_.len() as int, (w0_.len() + {n8}) as int) =~= tbs_);",
+                                    ensures=f"final(state).written().len() == old(state).written().len() + {n8}, final(state).written().subrange(0, old(state).written().len() as int) == old(state).written(), bytes_val(final(state).written().subrange(old(state).written().len() as int, (old(state).written().len() + {n8}) as int)) == self.val()"),
+      header_out=f"impl {F}")
     u = Unit(name=f"fieldx_{f}",
              preludes=[("common.rs", None), ("field_consts.rs", dict(NW=fp["N64"])), ("field_abs.rs", None), ("std_standins.rs", None),
-                       ("le_lemmas.rs", None), ("ark_bigint.rs", None), ("ladder_lemmas.rs", None), ("pow_lemmas.rs", None), ("chunk_lemmas.rs", None)],
+                       ("le_lemmas.rs", None), ("ark_bigint.rs", None), ("ladder_lemmas.rs", None), ("pow_lemmas.rs", None), ("chunk_lemmas.rs", None), ("ord_lemmas.rs", None)],
              items=items, lemmas=lem + FX_LEMMAS + f"""
 pub proof fn lemma_pw256_n8() ensures pw256({n8}) % {P} == {W_}int {{ assert(pw256({n8}) % {fp["P"]}int == {W_}int) by(compute_only); }}
 """, params=fp,
-             global_subst=[("R7", r'\bark_ff::BigInt\(', 'BigInt('), ("R7", r'\bSelf::BigInt\b', 'BigInt')])
+             global_subst=[("R7", r'\bark_ff::BigInt\(', 'BigInt('), ("R7", r'\bSelf::BigInt\b', 'BigInt'), ("R7", r'\bcore::hash::Hasher\b', 'Hasher')])
     u.raw = [("src/error.rs", "enum", "EncodingError")]
     u.ufcs_fns = ("power",)
     return u
